@@ -360,11 +360,11 @@ func GenCase(t *rapid.T, c *verifkit.Case, ex Exec, row Row) {
 // ---- execution of one cell
 
 type tracker struct {
-	last [2]Slot
-	prev [2]uint64
-	seen [2]bool // was present at some point, then absent or rewritten
-	gone [2]bool // was present, then absent
-	re   [2]bool // was present, absent, present again
+	last    [2]Slot
+	prev    [2]uint64
+	seen    [2]bool // was present at some point, then absent or rewritten
+	gone    [2]bool // was present, then absent
+	re      [2]bool // was present, absent, present again
 	lastIdx uint64
 }
 
@@ -517,6 +517,7 @@ func ExecRun(f verifkit.F, c *verifkit.Case, ex Exec, h *Header, hist []*HistOp,
 	defer done()
 	defer c.GuardPanic(f, "C10/panic")
 	tr := &tracker{}
+	tr.step(Probe(store, ti.EK, h.Ent), 0)
 	for _, op := range hist {
 		_ = ApplyHist(store, op)
 		tr.step(Probe(store, ti.EK, h.Ent), op.idx())
